@@ -718,6 +718,13 @@ func findParentInsideGraph(ds *ld.RDFDataset, q *ld.Quad) (datasetIdx, error) {
 		}
 
 		if qKey == objKey {
+			// a node that refers to itself is not its own parent: it is a
+			// reference cycle of length one
+			subjKey, err := getRef(quad.Subject)
+			if err == nil && subjKey == qKey {
+				return datasetIdx{}, errCyclicReference
+			}
+
 			if found {
 				return datasetIdx{}, errMultipleParentsFound
 			}
